@@ -176,8 +176,44 @@ class SimSocket(object):
         return None
 
     def send(self, data):
-        self.sendall(data)
-        return len(data)
+        """One write: everything on a blocking socket; on a socket with a time-out (which the
+        kernel sees as non-blocking) only what the send buffer has room for right now - the
+        caller learns how much from the return value."""
+        data = bytes(data)
+        tx = self.tx
+        if self.timeout is None or tx is None or tx.capacity is None or self.closed or \
+                not self.connected or self.shut_wr or self.rx.rst or self.peer.closed or \
+                len(data) <= tx.room():
+            self.sendall(data)
+            return len(data)
+        sim = self.sim
+        sim.yield_('send')
+        if tx.room() <= 0:
+            ok = sim.wait(lambda: tx.room() > 0 or self.rx.rst or self.closed, self.timeout,
+                          'send-full')
+            if self.closed:
+                raise OSError(errno.EBADF, 'Bad file descriptor')
+            if self.rx.rst:
+                raise ConnectionResetError(errno.ECONNRESET, 'Connection reset by peer')
+            if not ok and tx.room() <= 0:
+                sim.bump('net.send_timeout')
+                raise _realsocket.timeout('timed out')
+        part = data[:max(0, tx.room())]
+        sim.log('send-partial', self.name, len(part), len(data))
+        sim.bump('net.partial_write')
+        if self.on_send is not None:
+            self.on_send(self, part)
+        tx.total_written += len(part)
+        if tx.auto:
+            tx.rcvbuf += part
+            tx.total_delivered += len(part)
+        else:
+            tx.segs.append([sim.now + tx.latency, bytearray(part)])
+        tx.boundaries.append(tx.total_written)
+        return len(part)
+
+    def sendmsg(self, buffers, ancdata=(), flags=0, address=None):
+        return self.send(b''.join(bytes(b) for b in buffers))
 
     def _readable(self):
         rx = self.rx
@@ -614,11 +650,59 @@ class SimLock(object):
         self.release()
 
 
+def make_sim_thread_class(sim, on_start=None):
+    """threading.Thread look-alike whose start() makes a simulator task (for threads that the
+    code under test starts itself, e.g. socketserver's per-connection threads)."""
+    counter = {'n': 0}
+
+    class SimThread(object):
+        def __init__(self, group=None, target=None, name=None, args=(), kwargs=None,
+                     daemon=None):
+            self._target = target
+            self._args = tuple(args)
+            self._kwargs = dict(kwargs or {})
+            counter['n'] += 1
+            self.name = name or 'thr%d' % counter['n']
+            self.daemon = bool(daemon)
+            self._task = None
+            self.ident = None
+
+        def run(self):
+            if self._target is not None:
+                self._target(*self._args, **self._kwargs)
+
+        def start(self):
+            name, role = self.name, 'thread'
+            if on_start is not None:
+                name, role = on_start(self) or (name, role)
+            self._task = sim.spawn(self.run, name=name, role=role)
+            if on_start is not None and hasattr(on_start, 'started'):
+                on_start.started(self, self._task)
+
+        def is_alive(self):
+            return self._task is not None and not self._task.done
+
+        def join(self, timeout=None):
+            t = self._task
+            if t is not None:
+                sim.wait(lambda: t.done, timeout, 'join')
+
+        def setDaemon(self, d):  # noqa: N802
+            self.daemon = bool(d)
+
+        def getName(self):  # noqa: N802
+            return self.name
+    return SimThread
+
+
 class ThreadingNS(object):
-    def __init__(self, sim, real):
+    def __init__(self, sim, real, thread_cls=None):
         self.sim = sim
         self._real = real
-        self.Thread = real.Thread
+        self.Thread = thread_cls or real.Thread
+        self.Condition = real.Condition
+        self.Semaphore = real.Semaphore
+        self.Timer = real.Timer
         self.local = real.local
         self.current_thread = real.current_thread
         self.get_ident = real.get_ident
